@@ -464,7 +464,7 @@ def drive_pool_gaps(io_, ob, stop, chunks):
     return ob.observation(term)
 
 
-def drive(io_, kind, lim, chunks, ending="eof", pace=0, rd="pipe", gaps=0, real_gap=0.0):
+def drive(io_, kind, lim, chunks, ending="eof", pace=0, rd="pipe", gaps=0, real_gap=0.0, eager=0):
     """Run one real loop over the chunks; returns the canonical observation."""
     stop = threading.Event()
     with Observer() as ob:
@@ -475,10 +475,21 @@ def drive(io_, kind, lim, chunks, ending="eof", pace=0, rd="pipe", gaps=0, real_
             clock = VClock(loop)
             try:
                 reader = asyncio.StreamReader(limit=lim, loop=loop)
+                # eager = 2: every byte AND the end of the stream are in the reader before the loop's first step;
+                # eager = 1: the last chunk and the end of the stream arrive in the same loop iteration
+                # (the placement of the EOF is part of the delivery schedule the statement quantifies over)
+                if eager == 2:
+                    for c in chunks:
+                        reader.feed_data(c)
+                    chunks = []
+                    if ending == "eof":
+                        reader.feed_eof()
                 task = loop.create_task(io_.run_async(stop, reader, ob.proto, error_handler=ob.error_handler))
                 spin(loop)
-                for c in chunks:
+                for ci, c in enumerate(chunks):
                     reader.feed_data(c)
+                    if eager == 1 and ci == len(chunks) - 1 and ending == "eof":
+                        break
                     spin(loop)
                     if gaps:
                         clock.advance(GAP)      # an hour of silence: every pending timer fires
@@ -489,7 +500,8 @@ def drive(io_, kind, lim, chunks, ending="eof", pace=0, rd="pipe", gaps=0, real_
                             spin(loop)
                             time.sleep(0.05)
                 if ending == "eof":
-                    reader.feed_eof()
+                    if eager != 2:
+                        reader.feed_eof()
                 else:
                     reader.set_exception(ConnectionResetError("reset by peer"))
                 spin(loop)
@@ -756,6 +768,8 @@ class C02(core.Property):
             if kind != "sync" and len(parts) <= 12 and i % 2 == 0:
                 c["gaps"] = 1               # quiet periods (virtual clock) between the chunks
                 c["pace"] = 0
+            elif kind == "stream" and lim == DEFAULT_LIMIT and n < 60000:
+                c["eager"] = 1 + (i // 3) % 2   # EOF together with the last chunk / everything before the first step
             out.append(c)
         if not chk.quick:
             # sanity check of the virtual clock: a few REAL idle gaps between frames / inside a header
@@ -821,6 +835,8 @@ class C02(core.Property):
                  "pace": 1 if (kind != "stream" and i % 5 == 0) else 0}
             if kind != "sync" and (i // 3) % 3 == 0:
                 c["gaps"] = 1
+            elif kind == "stream" and lim == DEFAULT_LIMIT and len(data) < 60000:
+                c["eager"] = 1 + (i // 3) % 2
             if kind == "sync" and ncut == 0:
                 c["rd"] = "bytesio"
             out.append(c)
@@ -842,7 +858,8 @@ class C02(core.Property):
                     with alarm(case_deadline(3 * c.get("real_gap", 0.0))):
                         _, chunks = case_stream(c)
                         out.append(drive(io_, c["kind"], c.get("lim", DEFAULT_LIMIT), chunks, c.get("end", "eof"),
-                                         c.get("pace", 0), c.get("rd", "pipe"), c.get("gaps", 0), c.get("real_gap", 0.0)))
+                                         c.get("pace", 0), c.get("rd", "pipe"), c.get("gaps", 0), c.get("real_gap", 0.0),
+                                         c.get("eager", 0)))
                 except HarnessTimeout:
                     # the read loop does not end (S: the call returns)
                     hangs += 1
